@@ -51,7 +51,7 @@ import (
 var shim []byte
 
 var yields bool
-var nLock, nGo, nYield, nSorted, nUnordered int
+var nLock, nGo, nYield, nSorted, nUnordered, nSelect, nSelectSkipped int
 
 const shimPath = "github.com/google/certificate-transparency-go/verifhook/simsync"
 
@@ -88,7 +88,13 @@ func main() {
 	if err := os.WriteFile(filepath.Join(*dst, "verifhook", "simsync", "simsync.go"), shim, 0o644); err != nil {
 		die("%v", err)
 	}
-	// export data of every dependency, file lists of the packages to rewrite (before anything is rewritten)
+	dirs0 := strings.Split(*pkgs, ",")
+	for _, p := range dirs0 {
+		if err := selectPrepass(filepath.Join(*dst, p)); err != nil {
+			die("select pre-pass %s: %v", p, err)
+		}
+	}
+	// export data of every dependency, file lists of the packages to rewrite (before anything else is rewritten)
 	args := []string{"list", "-e", "-export", "-deps", "-tags", *tags, "-json=ImportPath,Dir,Export,GoFiles,Error"}
 	dirs := strings.Split(*pkgs, ",")
 	for _, p := range dirs {
@@ -130,7 +136,7 @@ func main() {
 			die("rewrite %s: %v", p, err)
 		}
 	}
-	fmt.Printf("lockstep: %d sync type references, %d go statements, %d map ranges ordered (%d left unordered), %d yields in %s\n", nLock, nGo, nSorted, nUnordered, nYield, *pkgs)
+	fmt.Printf("lockstep: %d sync type references, %d go statements, %d map ranges ordered (%d left unordered), %d yields, %d selects given a seeded preference (%d left alone) in %s\n", nLock, nGo, nSorted, nUnordered, nYield, nSelect, nSelectSkipped, *pkgs)
 	if nLock+nGo+nYield == 0 {
 		die("nothing rewritten - wrong package list?")
 	}
@@ -372,6 +378,11 @@ func rewriteFile(fset *token.FileSet, f *ast.File, path string, info *types.Info
 		return true
 	})
 	added := false
+	for _, im := range f.Imports {
+		if im.Path.Value == strconv.Quote(shimPath) {
+			added = true // the select pre-pass imported it already
+		}
+	}
 	for _, d := range f.Decls {
 		gd, ok := d.(*ast.GenDecl)
 		if !ok || gd.Tok != token.IMPORT {
@@ -410,4 +421,203 @@ func rewriteFile(fset *token.FileSet, f *ast.File, path string, info *types.Info
 		return err
 	}
 	return os.WriteFile(path, buf.Bytes(), 0o644)
+}
+
+// selectPrepass: a `select` with several communication clauses is decided by the Go runtime when more than one
+// of them is ready - the one choice inside the code under test that no seam orders. The pre-pass (textual, before
+// anything is type-checked) gives every such statement a preference drawn from the run's seed:
+//
+//	select { case A: a; case B: b }
+//
+// becomes
+//
+//	switch simsync.SelPick("file.go:line", 3) {
+//	case 0:
+//		select { case A: a; default: select { case A: a; case B: b } }
+//	case 1:
+//		select { case B: b; default: select { case A: a; case B: b } }
+//	default:
+//		select { case A: a; case B: b }
+//	}
+//
+// Choosing a particular ready case is one of the outcomes the language allows, so this is a refinement; which
+// case is preferred at which site differs from run to run, so both outcomes of a tie stay reachable. Clauses
+// whose operands contain calls other than x.Done() are never the preferred one (their operands would be
+// evaluated twice); statements whose bodies declare labels are left alone (the copies would clash).
+func selectPrepass(dir string) error {
+	ents, err := os.ReadDir(dir)
+	if err != nil {
+		return err
+	}
+	for _, e := range ents {
+		name := e.Name()
+		if e.IsDir() || !strings.HasSuffix(name, ".go") || strings.HasSuffix(name, "_test.go") {
+			continue
+		}
+		path := filepath.Join(dir, name)
+		src, err := os.ReadFile(path)
+		if err != nil {
+			return err
+		}
+		fset := token.NewFileSet()
+		f, err := parser.ParseFile(fset, path, src, parser.ParseComments)
+		if err != nil {
+			return err
+		}
+		var sels []*ast.SelectStmt
+		ast.Inspect(f, func(n ast.Node) bool {
+			if s, ok := n.(*ast.SelectStmt); ok {
+				sels = append(sels, s)
+			}
+			return true
+		})
+		if len(sels) == 0 {
+			continue
+		}
+		off := func(p token.Pos) int { return fset.Position(p).Offset }
+		changed := false
+		var render func(lo, hi int) string
+		rewriteSel := func(s *ast.SelectStmt) (string, bool) {
+			var comm []*ast.CommClause
+			hasLabel := false
+			for _, c := range s.Body.List {
+				cc := c.(*ast.CommClause)
+				if cc.Comm != nil {
+					comm = append(comm, cc)
+				}
+				for _, st := range cc.Body {
+					ast.Inspect(st, func(n ast.Node) bool {
+						if _, ok := n.(*ast.LabeledStmt); ok {
+							hasLabel = true
+						}
+						return true
+					})
+				}
+			}
+			if len(comm) < 2 {
+				return "", false
+			}
+			if hasLabel {
+				nSelectSkipped++
+				fmt.Fprintf(os.Stderr, "lockstep: %s: select left alone (a clause body declares a label)\n", fset.Position(s.Pos()))
+				return "", false
+			}
+			clauseText := func(cc *ast.CommClause) string {
+				end := off(cc.End())
+				return string(src[off(cc.Pos()):off(cc.Colon)+1]) + render(off(cc.Colon)+1, end)
+			}
+			orig := "select {\n"
+			for _, c := range s.Body.List {
+				orig += clauseText(c.(*ast.CommClause)) + "\n"
+			}
+			orig += "}"
+			pollable := func(cc *ast.CommClause) bool {
+				ok := true
+				ast.Inspect(cc.Comm, func(n ast.Node) bool {
+					if ce, isCall := n.(*ast.CallExpr); isCall {
+						se, isSel := ce.Fun.(*ast.SelectorExpr)
+						if !isSel || se.Sel.Name != "Done" || len(ce.Args) != 0 {
+							ok = false
+						}
+					}
+					if _, isLit := n.(*ast.FuncLit); isLit {
+						ok = false
+					}
+					return true
+				})
+				return ok
+			}
+			var pref []*ast.CommClause
+			for _, cc := range comm {
+				if pollable(cc) {
+					pref = append(pref, cc)
+				}
+			}
+			if len(pref) == 0 {
+				nSelectSkipped++
+				return "", false
+			}
+			pos := fset.Position(s.Pos())
+			out := fmt.Sprintf("switch simsync.SelPick(%q, %d) {\n", fmt.Sprintf("%s:%d", filepath.Base(path), pos.Line), len(pref)+1)
+			for i, cc := range pref {
+				out += fmt.Sprintf("case %d:\nselect {\n%s\ndefault:\n%s\n}\n", i, clauseText(cc), orig)
+			}
+			out += "default:\n" + orig + "\n}"
+			nSelect++
+			changed = true
+			return out, true
+		}
+		render = func(lo, hi int) string {
+			// outermost select statements inside [lo, hi)
+			var top []*ast.SelectStmt
+			for _, s := range sels {
+				a, b := off(s.Pos()), off(s.End())
+				if a < lo || b > hi {
+					continue
+				}
+				nested := false
+				for _, t := range sels {
+					ta, tb := off(t.Pos()), off(t.End())
+					if t != s && ta >= lo && tb <= hi && ta <= a && b <= tb {
+						nested = true
+					}
+				}
+				if !nested {
+					top = append(top, s)
+				}
+			}
+			var sb strings.Builder
+			at := lo
+			for _, s := range top { // in source order (ast.Inspect visits in order)
+				a, b := off(s.Pos()), off(s.End())
+				sb.Write(src[at:a])
+				if txt, ok := rewriteSel(s); ok {
+					sb.WriteString(txt)
+				} else {
+					// left alone, but selects nested in its bodies are still looked at
+					sb.Write(src[a : off(s.Body.Lbrace)+1])
+					sb.WriteString(renderInside(s, render, off, src))
+					sb.WriteString("}")
+				}
+				at = b
+			}
+			sb.Write(src[at:hi])
+			return sb.String()
+		}
+		body := render(0, len(src))
+		if !changed {
+			continue
+		}
+		// import the shim right after the package clause (a further import declaration is legal)
+		pe := off(f.Name.End())
+		body = body[:pe] + "\n\nimport simsync " + strconv.Quote(shimPath) + "\n" + body[pe:]
+		fmted, err := format.Source([]byte(body))
+		if err != nil {
+			if os.Getenv("LOCKSTEP_DEBUG") != "" {
+				_ = os.WriteFile(path+".broken", []byte(body), 0o644)
+			}
+			return fmt.Errorf("%s: %v", name, err)
+		}
+		if err := os.WriteFile(path, fmted, 0o644); err != nil {
+			return err
+		}
+	}
+	return nil
+}
+
+// renderInside renders the inside of a select statement that is itself left alone: between the braces,
+// with nested statements rewritten.
+func renderInside(s *ast.SelectStmt, render func(lo, hi int) string, off func(token.Pos) int, src []byte) string {
+	lo, hi := off(s.Body.Lbrace)+1, off(s.Body.Rbrace)
+	var sb strings.Builder
+	at := lo
+	for _, c := range s.Body.List {
+		cc := c.(*ast.CommClause)
+		a, b := off(cc.Colon)+1, off(cc.End())
+		sb.Write(src[at:a])
+		sb.WriteString(render(a, b))
+		at = b
+	}
+	sb.Write(src[at:hi])
+	return sb.String()
 }
